@@ -2311,6 +2311,31 @@ pub fn cases(prop: &str, t: Tier, seed: u64) -> Vec<Case> {
         }
         _ => {}
     }
+    // C04: `Debug::fmt` is a safe public method of every structure: it must not panic on any reachable value
+    if prop == "C04" {
+        for c in out.iter_mut() {
+            if c.tags.iter().any(|t| t == "scale") {
+                continue;
+            }
+            let mut slots: Vec<usize> = vec![];
+            for l in &c.lines {
+                let t: Vec<&str> = l.split(' ').collect();
+                if t.len() >= 3 && t[0] == "mk" {
+                    let kind = t[2].split(':').next().unwrap_or("");
+                    if ["qv", "qvx", "qvpush", "rsq", "rsqdefault", "bvbits", "bvpos", "bvzpos", "bvnew", "bvzeros", "rsn", "rsw", "da", "dabits", "dapos", "dadefault", "rsndefault", "rswdefault"].contains(&kind) {
+                        if let Ok(k) = t[1].parse::<usize>() {
+                            if !slots.contains(&k) {
+                                slots.push(k);
+                            }
+                        }
+                    }
+                }
+            }
+            for k in slots {
+                c.l(format!("q {} debug", k));
+            }
+        }
+    }
     // the properties quantify over every value / every reachable state: clones and deserialised copies too
     if ["C01", "C02", "C03", "C04", "C05", "C06", "C07", "C08", "C10", "C12", "C13"].contains(&prop) {
         reached_variants(r, 3, &mut out);
